@@ -912,6 +912,12 @@ def _build_api(ctx, case, raw, plan, wd, sig):
             ctx.violation(key, _witness(case, plan, {"observed_init_offset": bimg.init_offset}))
             return None
         image = bimg.export()
+        second = bimg.export()
+        ctx.count("second_exports_compared")
+        if second != image:
+            ctx.violation("bimg-second-export-of-the-same-object-differs", _witness(case, plan, {"first": len(image), "second": len(second),
+                                                                                          "first_diff": next((i for i, (x, y) in enumerate(zip(image, second)) if x != y), None)}))
+            return None
     except SPSDKError as e:
         if not _refusal_expected(raw, plan):
             ctx.violation("bimg-merge-refuses-well-formed-segments", _witness(case, plan, {"where": "api", "error": core.exc_brief(e)}))
